@@ -35,14 +35,26 @@ if [ -n "$demo_cmd" ]; then
   if [ $with -ne 0 ] && [ $without -eq 0 ]; then demo_ok=yes; else demo_ok=no; tail -5 "$wt/.demo_with.log"; echo ...; tail -5 "$wt/.demo_without.log"; fi
 fi
 cd "$here"
-if [ -n "$(git -C /repo status --porcelain)" ]; then log "/repo is dirty, refusing"; exit 5; fi
-git -C /repo apply "$src/patch.diff"
 rcsum=""
-for c in $ids; do
-  ./check $c > "$here/.work/mut-$tag-$c.log" 2>&1; rc=$?
-  rcsum="$rcsum $c=$rc"
-  log "check $c exit=$rc :: $(grep -m1 'VIOLATION\|^OK\|INCONCLUSIVE\|BUILD-FAILED' "$here/.work/mut-$tag-$c.log")"
-done
-git -C /repo checkout -- .
-git -C /repo clean -fdq -- internal cmd 2>/dev/null
+if [ "${MUT_IN_REPO:-0}" = "1" ]; then
+  # the prescribed way: apply to /repo, run, revert straight afterwards (serial use only)
+  if [ -n "$(git -C /repo status --porcelain)" ]; then log "/repo is dirty, refusing"; exit 5; fi
+  git -C /repo apply "$src/patch.diff"
+  for c in $ids; do
+    ./check $c > "$here/.work/mut-$tag-$c.log" 2>&1; rc=$?
+    rcsum="$rcsum $c=$rc"
+    log "check $c exit=$rc :: $(grep -a -m1 'VIOLATION\|^OK\|INCONCLUSIVE\|BUILD-FAILED' "$here/.work/mut-$tag-$c.log")"
+  done
+  git -C /repo checkout -- .
+  git -C /repo clean -fdq -- internal cmd 2>/dev/null
+else
+  # equivalent and parallel-safe: point the harness at the scratch worktree that already
+  # holds the patched tree (VERIF_REPO builds with an alternate go.mod); /repo is not touched
+  rm -f $(git -C "$wt" ls-files --others --exclude-standard | sed "s|^|$wt/|") 2>/dev/null
+  for c in $ids; do
+    VERIF_REPO="$wt" ./check $c > "$here/.work/mut-$tag-$c.log" 2>&1; rc=$?
+    rcsum="$rcsum $c=$rc"
+    log "check $c exit=$rc :: $(grep -a -m1 'VIOLATION\|^OK\|INCONCLUSIVE\|BUILD-FAILED' "$here/.work/mut-$tag-$c.log")"
+  done
+fi
 log "RESULT demo=$demo_ok checks:$rcsum"
